@@ -1,0 +1,187 @@
+//go:build verif
+
+package hyperdual
+
+// Copyright ©2026 The Gonum Authors. All rights reserved.
+// Use of this source code is governed by a BSD-style
+// license that can be found in the LICENSE file.
+
+// Machine-checked contracts for the hyperdual number arithmetic of this package
+// (verification hook, build tag verif; this file contains comments only).
+// The contract language and the checker are described in /verif/DESIGN.md.
+//
+// A hyperdual number r + r1ϵ₁ + r2ϵ₂ + r12ϵ₁ϵ₂ (ϵ₁² = ϵ₂² = 0) carries a value,
+// two first derivatives and the mixed second derivative. mulR, mul1, mul2, mul12
+// are the components of the product, invR ... inv12 those of the inverse. The
+// functions are specified bit-exactly (same: identical float64 values, the float
+// operations in the order and association of the defining formula); the algebraic
+// laws are lemmas over the same macros in exact (real) arithmetic.
+
+//@ spec mulR(r float64, r1 float64, r2 float64, r12 float64, s float64, s1 float64, s2 float64, s12 float64) float64 = r*s
+//@ spec mul1(r float64, r1 float64, r2 float64, r12 float64, s float64, s1 float64, s2 float64, s12 float64) float64 = r*s1 + r1*s
+//@ spec mul2(r float64, r1 float64, r2 float64, r12 float64, s float64, s1 float64, s2 float64, s12 float64) float64 = r*s2 + r2*s
+//@ spec mul12(r float64, r1 float64, r2 float64, r12 float64, s float64, s1 float64, s2 float64, s12 float64) float64 = r*s12 + r1*s2 + r2*s1 + r12*s
+//@ spec invR(r float64, r1 float64, r2 float64, r12 float64) float64 = 1/r
+//@ spec inv1(r float64, r1 float64, r2 float64, r12 float64) float64 = -r1/(r*r)
+//@ spec inv2(r float64, r1 float64, r2 float64, r12 float64) float64 = -r2/(r*r)
+//@ spec inv12(r float64, r1 float64, r2 float64, r12 float64) float64 = -r12/(r*r) + 2*r1*r2/((r*r)*r)
+
+//@ func Add props: C18
+//@ writes nothing
+//@ ensures same(result.Real, x.Real + y.Real)
+//@ ensures same(result.E1mag, x.E1mag + y.E1mag)
+//@ ensures same(result.E2mag, x.E2mag + y.E2mag)
+//@ ensures same(result.E1E2mag, x.E1E2mag + y.E1E2mag)
+
+//@ func Sub props: C18
+//@ writes nothing
+//@ ensures same(result.Real, x.Real - y.Real)
+//@ ensures same(result.E1mag, x.E1mag - y.E1mag)
+//@ ensures same(result.E2mag, x.E2mag - y.E2mag)
+//@ ensures same(result.E1E2mag, x.E1E2mag - y.E1E2mag)
+
+//@ func Mul props: C18
+//@ writes nothing
+//@ ensures same(result.Real, mulR(x.Real, x.E1mag, x.E2mag, x.E1E2mag, y.Real, y.E1mag, y.E2mag, y.E1E2mag))
+//@ ensures same(result.E1mag, mul1(x.Real, x.E1mag, x.E2mag, x.E1E2mag, y.Real, y.E1mag, y.E2mag, y.E1E2mag))
+//@ ensures same(result.E2mag, mul2(x.Real, x.E1mag, x.E2mag, x.E1E2mag, y.Real, y.E1mag, y.E2mag, y.E1E2mag))
+//@ ensures same(result.E1E2mag, mul12(x.Real, x.E1mag, x.E2mag, x.E1E2mag, y.Real, y.E1mag, y.E2mag, y.E1E2mag))
+
+// Inv away from ±0 (at ±0 the documented signed infinities are returned).
+//@ func Inv props: C18
+//@ writes nothing
+//@ ensures !(d.Real == 0) ==> same(result.Real, invR(d.Real, d.E1mag, d.E2mag, d.E1E2mag))
+//@ ensures !(d.Real == 0) ==> same(result.E1mag, inv1(d.Real, d.E1mag, d.E2mag, d.E1E2mag))
+//@ ensures !(d.Real == 0) ==> same(result.E2mag, inv2(d.Real, d.E1mag, d.E2mag, d.E1E2mag))
+//@ ensures !(d.Real == 0) ==> same(result.E1E2mag, inv12(d.Real, d.E1mag, d.E2mag, d.E1E2mag))
+
+//@ func Scale props: C18
+//@ writes nothing
+//@ ensures same(result.Real, f * d.Real)
+//@ ensures same(result.E1mag, f * d.E1mag)
+//@ ensures same(result.E2mag, f * d.E2mag)
+//@ ensures same(result.E1E2mag, f * d.E1E2mag)
+
+// ---- elementary functions ---------------------------------------------------------
+// f(d) = f(r) + f'(r)r1ϵ₁ + f'(r)r2ϵ₂ + (f'(r)r12 + f''(r)r1r2)ϵ₁ϵ₂: the clauses say which
+// derivative formulas multiply the ϵ parts (math.Exp etc. are the uninterpreted
+// library functions).
+
+//@ func Exp props: C18
+//@ writes nothing
+//@ ensures same(result.Real, math.Exp(d.Real))
+//@ ensures same(result.E1mag, math.Exp(d.Real)*d.E1mag)
+//@ ensures same(result.E2mag, math.Exp(d.Real)*d.E2mag)
+//@ ensures same(result.E1E2mag, math.Exp(d.Real)*(d.E1E2mag + d.E1mag*d.E2mag))
+
+//@ func Cos props: C18
+//@ writes nothing
+//@ ensures same(result.Real, math.Cos(d.Real))
+//@ ensures same(result.E1mag, (-math.Sin(d.Real))*d.E1mag)
+//@ ensures same(result.E2mag, (-math.Sin(d.Real))*d.E2mag)
+//@ ensures same(result.E1E2mag, (-math.Sin(d.Real))*d.E1E2mag - math.Cos(d.Real)*d.E1mag*d.E2mag)
+
+// At d.Real == ±0 the functions Sin, Tan, Asin, Atan, Sinh, Tanh, Asinh, Atanh used to return a
+// signed zero as ϵ₁ϵ₂ part and to drop d.E1E2mag, although f'(0) = 1 and f''(0) = 0 for all of them
+// (with x = 1+ϵ₁+ϵ₂ and g = x*x-1 = 0+2ϵ₁+2ϵ₂+2ϵ₁ϵ₂, Sin(g).E1E2mag was -0 but d²/dx² sin(x²-1) at
+// 1 is 2), and Sinh returned E2mag: d.E1mag. Both were repaired ("fix:" commits); the clauses
+//   d.Real == 0 && !(d.E1E2mag == 0) ==> same(result.E1E2mag, d.E1E2mag)
+// and Sinh's E2mag clause fail on the earlier text.
+
+//@ func Sin props: C18
+//@ writes nothing
+//@ ensures d.Real == 0 ==> same(result.Real, d.Real) && same(result.E1mag, d.E1mag) && same(result.E2mag, d.E2mag)
+//@ ensures d.Real == 0 && !(d.E1E2mag == 0) ==> same(result.E1E2mag, d.E1E2mag)
+//@ ensures !(d.Real == 0) ==> same(result.Real, math.Sin(d.Real))
+//@ ensures !(d.Real == 0) ==> same(result.E1mag, math.Cos(d.Real)*d.E1mag)
+//@ ensures !(d.Real == 0) ==> same(result.E2mag, math.Cos(d.Real)*d.E2mag)
+//@ ensures !(d.Real == 0) ==> same(result.E1E2mag, math.Cos(d.Real)*d.E1E2mag - math.Sin(d.Real)*d.E1mag*d.E2mag)
+
+// tan' = 1+tan², tan'' = 2 tan (1+tan²), stated through the returned real part
+//@ func Tan props: C18
+//@ writes nothing
+//@ ensures d.Real == 0 ==> same(result.Real, d.Real) && same(result.E1mag, d.E1mag) && same(result.E2mag, d.E2mag)
+//@ ensures d.Real == 0 && !(d.E1E2mag == 0) ==> same(result.E1E2mag, d.E1E2mag)
+//@ ensures !(d.Real == 0) ==> same(result.E1mag, (1 + result.Real*result.Real)*d.E1mag)
+//@ ensures !(d.Real == 0) ==> same(result.E2mag, (1 + result.Real*result.Real)*d.E2mag)
+//@ ensures !(d.Real == 0) ==> same(result.E1E2mag, (1 + result.Real*result.Real)*d.E1E2mag + d.E1mag*d.E2mag*(2*result.Real*(1 + result.Real*result.Real)))
+
+// atan' = 1/(1+x²), atan'' = -2x/(1+x²)²
+//@ func Atan props: C18
+//@ writes nothing
+//@ ensures d.Real == 0 ==> same(result.Real, d.Real) && same(result.E1mag, d.E1mag) && same(result.E2mag, d.E2mag)
+//@ ensures d.Real == 0 && !(d.E1E2mag == 0) ==> same(result.E1E2mag, d.E1E2mag)
+//@ ensures !(d.Real == 0) ==> same(result.E1mag, (1/(1 + d.Real*d.Real))*d.E1mag)
+//@ ensures !(d.Real == 0) ==> same(result.E2mag, (1/(1 + d.Real*d.Real))*d.E2mag)
+//@ ensures !(d.Real == 0) ==> same(result.E1E2mag, (1/(1 + d.Real*d.Real))*d.E1E2mag + d.E1mag*d.E2mag*(-2*d.Real/((1 + d.Real*d.Real)*(1 + d.Real*d.Real))))
+
+// sinh' = cosh, sinh'' = sinh
+//@ func Sinh props: C18
+//@ writes nothing
+//@ ensures d.Real == 0 ==> same(result.Real, d.Real) && same(result.E1mag, d.E1mag) && same(result.E2mag, d.E2mag)
+//@ ensures d.Real == 0 && !(d.E1E2mag == 0) ==> same(result.E1E2mag, d.E1E2mag)
+//@ ensures !(d.Real == 0) && !isInf(d.Real) ==> same(result.Real, math.Sinh(d.Real))
+//@ ensures !(d.Real == 0) && !isInf(d.Real) ==> same(result.E1mag, math.Cosh(d.Real)*d.E1mag)
+//@ ensures !(d.Real == 0) && !isInf(d.Real) ==> same(result.E2mag, math.Cosh(d.Real)*d.E2mag)
+//@ ensures !(d.Real == 0) && !isInf(d.Real) ==> same(result.E1E2mag, math.Cosh(d.Real)*d.E1E2mag + math.Sinh(d.Real)*d.E1mag*d.E2mag)
+
+// Log on the positive finite reals: log' = 1/x, log'' = -1/x²
+//@ func Log props: C18
+//@ floats: ieee
+//@ writes nothing
+//@ ensures d.Real > 0 && !isInf(d.Real) ==> same(result.Real, math.Log(d.Real))
+//@ ensures d.Real > 0 && !isInf(d.Real) ==> same(result.E1mag, d.E1mag/d.Real)
+//@ ensures d.Real > 0 && !isInf(d.Real) ==> same(result.E2mag, d.E2mag/d.Real)
+//@ ensures d.Real > 0 && !isInf(d.Real) ==> same(result.E1E2mag, d.E1E2mag/d.Real - (d.E1mag/d.Real)*(d.E2mag/d.Real))
+//@ ensures d.Real < 0 ==> isNaN(result.Real) && isNaN(result.E1mag) && isNaN(result.E2mag) && isNaN(result.E1E2mag)
+
+// ---- algebraic laws (exact arithmetic) ------------------------------------------
+
+// a*b == b*a
+//@ lemma mul_commutative props: C18
+//@ floats: real
+//@ var a float64, a1 float64, a2 float64, a12 float64, b float64, b1 float64, b2 float64, b12 float64
+//@ goal mulR(a, a1, a2, a12, b, b1, b2, b12) == mulR(b, b1, b2, b12, a, a1, a2, a12) && mul1(a, a1, a2, a12, b, b1, b2, b12) == mul1(b, b1, b2, b12, a, a1, a2, a12) && mul2(a, a1, a2, a12, b, b1, b2, b12) == mul2(b, b1, b2, b12, a, a1, a2, a12) && mul12(a, a1, a2, a12, b, b1, b2, b12) == mul12(b, b1, b2, b12, a, a1, a2, a12)
+
+// (a*b)*c == a*(b*c)
+//@ lemma mul_associative props: C18
+//@ floats: real
+//@ var a float64, a1 float64, a2 float64, a12 float64, b float64, b1 float64, b2 float64, b12 float64, c float64, c1 float64, c2 float64, c12 float64
+//@ goal mulR(mulR(a, a1, a2, a12, b, b1, b2, b12), mul1(a, a1, a2, a12, b, b1, b2, b12), mul2(a, a1, a2, a12, b, b1, b2, b12), mul12(a, a1, a2, a12, b, b1, b2, b12), c, c1, c2, c12) == mulR(a, a1, a2, a12, mulR(b, b1, b2, b12, c, c1, c2, c12), mul1(b, b1, b2, b12, c, c1, c2, c12), mul2(b, b1, b2, b12, c, c1, c2, c12), mul12(b, b1, b2, b12, c, c1, c2, c12)) && mul1(mulR(a, a1, a2, a12, b, b1, b2, b12), mul1(a, a1, a2, a12, b, b1, b2, b12), mul2(a, a1, a2, a12, b, b1, b2, b12), mul12(a, a1, a2, a12, b, b1, b2, b12), c, c1, c2, c12) == mul1(a, a1, a2, a12, mulR(b, b1, b2, b12, c, c1, c2, c12), mul1(b, b1, b2, b12, c, c1, c2, c12), mul2(b, b1, b2, b12, c, c1, c2, c12), mul12(b, b1, b2, b12, c, c1, c2, c12)) && mul2(mulR(a, a1, a2, a12, b, b1, b2, b12), mul1(a, a1, a2, a12, b, b1, b2, b12), mul2(a, a1, a2, a12, b, b1, b2, b12), mul12(a, a1, a2, a12, b, b1, b2, b12), c, c1, c2, c12) == mul2(a, a1, a2, a12, mulR(b, b1, b2, b12, c, c1, c2, c12), mul1(b, b1, b2, b12, c, c1, c2, c12), mul2(b, b1, b2, b12, c, c1, c2, c12), mul12(b, b1, b2, b12, c, c1, c2, c12)) && mul12(mulR(a, a1, a2, a12, b, b1, b2, b12), mul1(a, a1, a2, a12, b, b1, b2, b12), mul2(a, a1, a2, a12, b, b1, b2, b12), mul12(a, a1, a2, a12, b, b1, b2, b12), c, c1, c2, c12) == mul12(a, a1, a2, a12, mulR(b, b1, b2, b12, c, c1, c2, c12), mul1(b, b1, b2, b12, c, c1, c2, c12), mul2(b, b1, b2, b12, c, c1, c2, c12), mul12(b, b1, b2, b12, c, c1, c2, c12))
+
+// a*(b+c) == a*b + a*c
+//@ lemma mul_distributes props: C18
+//@ floats: real
+//@ var a float64, a1 float64, a2 float64, a12 float64, b float64, b1 float64, b2 float64, b12 float64, c float64, c1 float64, c2 float64, c12 float64
+//@ goal mulR(a, a1, a2, a12, (b + c), (b1 + c1), (b2 + c2), (b12 + c12)) == (mulR(a, a1, a2, a12, b, b1, b2, b12) + mulR(a, a1, a2, a12, c, c1, c2, c12)) && mul1(a, a1, a2, a12, (b + c), (b1 + c1), (b2 + c2), (b12 + c12)) == (mul1(a, a1, a2, a12, b, b1, b2, b12) + mul1(a, a1, a2, a12, c, c1, c2, c12)) && mul2(a, a1, a2, a12, (b + c), (b1 + c1), (b2 + c2), (b12 + c12)) == (mul2(a, a1, a2, a12, b, b1, b2, b12) + mul2(a, a1, a2, a12, c, c1, c2, c12)) && mul12(a, a1, a2, a12, (b + c), (b1 + c1), (b2 + c2), (b12 + c12)) == (mul12(a, a1, a2, a12, b, b1, b2, b12) + mul12(a, a1, a2, a12, c, c1, c2, c12))
+
+// 1*a == a
+//@ lemma one_is_unit props: C18
+//@ floats: real
+//@ var a float64, a1 float64, a2 float64, a12 float64
+//@ goal mulR(1, 0, 0, 0, a, a1, a2, a12) == a && mul1(1, 0, 0, 0, a, a1, a2, a12) == a1 && mul2(1, 0, 0, 0, a, a1, a2, a12) == a2 && mul12(1, 0, 0, 0, a, a1, a2, a12) == a12
+
+// a*Inv(a) == 1 when the real part is not 0
+//@ lemma inverse props: C18
+//@ floats: real
+//@ var a float64, a1 float64, a2 float64, a12 float64
+//@ hyp a != 0
+//@ goal mulR(a, a1, a2, a12, invR(a, a1, a2, a12), inv1(a, a1, a2, a12), inv2(a, a1, a2, a12), inv12(a, a1, a2, a12)) == 1 && mul1(a, a1, a2, a12, invR(a, a1, a2, a12), inv1(a, a1, a2, a12), inv2(a, a1, a2, a12), inv12(a, a1, a2, a12)) == 0 && mul2(a, a1, a2, a12, invR(a, a1, a2, a12), inv1(a, a1, a2, a12), inv2(a, a1, a2, a12), inv12(a, a1, a2, a12)) == 0 && mul12(a, a1, a2, a12, invR(a, a1, a2, a12), inv1(a, a1, a2, a12), inv2(a, a1, a2, a12), inv12(a, a1, a2, a12)) == 0
+
+// Scale(f, a) == (f+0ϵ₁+0ϵ₂+0ϵ₁ϵ₂)*a
+//@ lemma scale_is_mul_by_real props: C18
+//@ floats: real
+//@ var f float64, a float64, a1 float64, a2 float64, a12 float64
+//@ goal mulR(f, 0, 0, 0, a, a1, a2, a12) == f*a && mul1(f, 0, 0, 0, a, a1, a2, a12) == f*a1 && mul2(f, 0, 0, 0, a, a1, a2, a12) == f*a2 && mul12(f, 0, 0, 0, a, a1, a2, a12) == f*a12
+
+// ϵ₁² == ϵ₂² == 0 and ϵ₁ϵ₂ is the fourth unit
+//@ lemma epsilons_nilpotent props: C18
+//@ floats: real
+//@ var z float64
+//@ goal mulR(0, 1, 0, 0, 0, 1, 0, 0) == 0 && mul1(0, 1, 0, 0, 0, 1, 0, 0) == 0 && mul2(0, 1, 0, 0, 0, 1, 0, 0) == 0 && mul12(0, 1, 0, 0, 0, 1, 0, 0) == 0 && mulR(0, 0, 1, 0, 0, 0, 1, 0) == 0 && mul1(0, 0, 1, 0, 0, 0, 1, 0) == 0 && mul2(0, 0, 1, 0, 0, 0, 1, 0) == 0 && mul12(0, 0, 1, 0, 0, 0, 1, 0) == 0 && mulR(0, 1, 0, 0, 0, 0, 1, 0) == 0 && mul1(0, 1, 0, 0, 0, 0, 1, 0) == 0 && mul2(0, 1, 0, 0, 0, 0, 1, 0) == 0 && mul12(0, 1, 0, 0, 0, 0, 1, 0) == 1
+
+// (ab)' = ab' + a'b in each direction, (ab)'' = ab'' + a'b' (twice) + a''b for the mixed part
+//@ lemma product_rule props: C18
+//@ floats: real
+//@ var a float64, a1 float64, a2 float64, a12 float64, b float64, b1 float64, b2 float64, b12 float64
+//@ goal mul1(a, a1, a2, a12, b, b1, b2, b12) == a*b1 + a1*b && mul2(a, a1, a2, a12, b, b1, b2, b12) == a*b2 + a2*b && mul12(a, a1, a2, a12, b, b1, b2, b12) == a*b12 + a1*b2 + a2*b1 + a12*b
